@@ -7,6 +7,7 @@ import os
 import re
 import shutil
 import subprocess
+import tempfile
 import sys
 import time
 
@@ -531,9 +532,9 @@ def vm_crosscheck(pid, run_import, run_name, cases, outputs):
              if not o.startswith("!") and len(o) + len(sx(c)) < 40000]
     if not pairs:
         return 0, [], ""
-    work = os.path.join(BUILD, "vmcheck", pid)
-    shutil.rmtree(work, ignore_errors=True)
-    os.makedirs(work)
+    # a directory of its own per run: two runs of the same property may overlap
+    os.makedirs(os.path.join(BUILD, "vmcheck"), exist_ok=True)
+    work = tempfile.mkdtemp(prefix=pid + "-", dir=os.path.join(BUILD, "vmcheck"))
     lines = ["From Coq Require Import List ZArith.", "From LV Require Import Base.Sexp %s." % run_import,
              "Import ListNotations.", "Definition cases : list (sexp * sexp) := ["]
     lines.append(";\n".join("  (%s, %s)" % (sexp_coq(c), sexp_coq(o)) for c, o in pairs))
@@ -544,6 +545,7 @@ def vm_crosscheck(pid, run_import, run_name, cases, outputs):
     with open(os.path.join(work, "cases.v"), "w") as f:
         f.write("\n".join(lines) + "\n")
     rc, out, dt = sh(["coqc", "-noglob", "-Q", os.path.join(COQ, "theories"), "LV", "cases.v"], 1200, cwd=work)
+    shutil.rmtree(work, ignore_errors=True)
     if rc != 0:
         return len(pairs), [-1], out[-2000:]
     m = re.search(r"=\s*\[(.*?)\]", out, re.S)
